@@ -583,6 +583,10 @@ func (h *harness) onScanReturn(side string, ancestor, content *core.Entry, prese
 // checkPlan decides C06 on the plan for the triple this cycle reached.
 func (h *harness) checkPlan(a, b *scanRecord) {
 	alpha, beta := a.content, b.content
+	if h.plan.C("docker_ignores") > 0 {
+		// (as the controller does with Docker-style ignores, before anything else)
+		alpha, beta, _, _ = core.ReifyPhantomDirectories(a.ancestor, alpha, beta)
+	}
 	if a.preserve && beta != nil && !b.preserve {
 		beta = core.PropagateExecutability(a.ancestor, alpha, beta)
 	} else if b.preserve && alpha != nil && !a.preserve {
